@@ -1,45 +1,54 @@
 //! C18, CFF charstrings: glyph keyed patches that bring the charstring data to totals around the INDEX offset-size
 //! thresholds (IFTCff.tla).
 use crate::c18::FaultyDecoder;
-use font_test_data::ift::{format2_with_one_charstrings_offset, CFF_FONT, CFF_FONT_CHARSTRINGS_OFFSET};
+use font_test_data::ift::{format2_with_one_charstrings_offset, CFF2_FONT, CFF2_FONT_CHARSTRINGS_OFFSET, CFF_FONT, CFF_FONT_CHARSTRINGS_OFFSET};
 use font_types::Tag;
 use fvcore::{guarded, Report};
 use incremental_font_transfer::patch_group::{PatchGroup, UriStatus};
 use incremental_font_transfer::patchmap::SubsetDefinition;
-use read_fonts::tables::postscript::Index1;
+use read_fonts::tables::postscript::Index;
 use read_fonts::{FontData, FontRead, FontRef, TableProvider};
 use serde_json::{json, Value};
 use std::cell::Cell;
 use std::collections::HashMap;
 use write_fonts::FontBuilder;
 
-const CFF: Tag = Tag::new(b"CFF ");
+/// the two flavours: CFF (INDEX with a 16-bit count) and CFF2 (32-bit count)
+#[derive(Clone, Copy)]
+struct Flavour {
+    tag: Tag,
+    cff2: bool,
+    cs_offset: u32,
+}
+const FLAVOURS: [Flavour; 2] = [Flavour { tag: Tag::new(b"CFF "), cff2: false, cs_offset: CFF_FONT_CHARSTRINGS_OFFSET }, Flavour { tag: Tag::new(b"CFF2"), cff2: true, cs_offset: CFF2_FONT_CHARSTRINGS_OFFSET }];
 
-fn charstrings<'a>(font: &FontRef<'a>) -> Option<Index1<'a>> {
-    let cff = font.cff().ok()?;
-    let data: FontData<'a> = cff.offset_data().split_off(CFF_FONT_CHARSTRINGS_OFFSET as usize)?;
-    Index1::read(data).ok()
+fn charstrings<'a>(font: &FontRef<'a>, fl: Flavour) -> Option<Index<'a>> {
+    let data: FontData<'a> = font.table_data(fl.tag)?.split_off(fl.cs_offset as usize)?;
+    Index::new(data.as_bytes(), fl.cff2).ok()
 }
 
-fn base_font() -> Vec<u8> {
+fn base_font(fl: Flavour) -> Vec<u8> {
     let mut ift = format2_with_one_charstrings_offset();
-    ift.write_at("charstrings_offset", CFF_FONT_CHARSTRINGS_OFFSET);
+    if fl.cff2 {
+        ift.write_at("field_flags", 0b00000010u8);
+    }
+    ift.write_at("charstrings_offset", fl.cs_offset);
     for (i, v) in [6u32, 7, 8, 9].iter().enumerate() {
         ift.write_at(&format!("compat_id[{i}]"), *v);
     }
     let mut b = FontBuilder::new();
     b.add_raw(Tag::new(b"IFT "), ift.as_slice().to_vec());
-    b.copy_missing_tables(FontRef::new(CFF_FONT).unwrap());
+    b.copy_missing_tables(FontRef::new(if fl.cff2 { CFF2_FONT } else { CFF_FONT }).unwrap());
     b.build()
 }
 
 /// 'ifgk' patch (pass-through "compression") replacing the charstring of `gid` with `len` bytes
-fn patch(gid: u16, len: usize) -> Vec<u8> {
+fn patch(gid: u16, len: usize, tag: Tag) -> Vec<u8> {
     let mut payload: Vec<u8> = vec![];
     payload.extend(1u32.to_be_bytes());
     payload.push(1);
     payload.extend(gid.to_be_bytes());
-    payload.extend(CFF.to_be_bytes());
+    payload.extend(tag.to_be_bytes());
     let start = (payload.len() + 8) as u32;
     payload.extend(start.to_be_bytes());
     payload.extend((start + len as u32).to_be_bytes());
@@ -56,13 +65,22 @@ fn patch(gid: u16, len: usize) -> Vec<u8> {
 }
 
 pub fn replay(path: &str, ev: &mut Vec<Value>, rep: &mut Report) {
-    let base = base_font();
+    for fl in FLAVOURS {
+        replay_flavour(path, fl, ev, rep);
+    }
+}
+
+fn replay_flavour(path: &str, fl: Flavour, ev: &mut Vec<Value>, rep: &mut Report) {
+    let base = base_font(fl);
+    let name = if fl.cff2 { "CFF2" } else { "CFF" };
+    #[allow(non_snake_case)]
+    let CFF = fl.tag;
     fvcore::tlc_stream(path, &["CFFCASE"], |_, c| {
         rep.evaluations += 1;
         let total = c["total"].as_u64().unwrap() as usize;
-        let case = json!({"kind": "cff-case", "case": c});
+        let case = json!({"kind": "cff-case", "flavour": name, "case": c});
         let font = FontRef::new(&base).unwrap();
-        let Some(old) = charstrings(&font) else { return rep.violation("base CFF font has no readable charstrings INDEX", json!({"kind": "tool"})) };
+        let Some(old) = charstrings(&font, fl) else { return rep.violation("base CFF font has no readable charstrings INDEX", json!({"kind": "tool"})) };
         let count = old.count() as usize;
         let gid = if c["which"] == "first" { 1usize } else { count - 1 };
         let old_total = old.get_offset(count).unwrap();
@@ -71,7 +89,7 @@ pub fn replay(path: &str, ev: &mut Vec<Value>, rep: &mut Report) {
             return; // the other charstrings alone are larger than this total
         }
         let new_len = total - (old_total - old_len);
-        let bytes = patch(gid as u16, new_len);
+        let bytes = patch(gid as u16, new_len, fl.tag);
         let r = guarded(|| {
             let group = PatchGroup::select_next_patches(font.clone(), &SubsetDefinition::codepoints([5].into_iter().collect())).map_err(|e| format!("select: {e}"))?;
             let uris: Vec<String> = group.uris().map(|s| s.to_string()).collect();
@@ -84,11 +102,11 @@ pub fn replay(path: &str, ev: &mut Vec<Value>, rep: &mut Report) {
             Err(p) => rep.violation(&format!("applying a CFF glyph keyed patch (total {total}) panicked: {p}"), case),
             Ok(Err(e)) => {
                 rep.violation(&format!("a well-formed CFF glyph keyed patch bringing the charstring data to {total} bytes was refused: {e}"), case);
-                ev.push(json!({"op": "cff", "total": total, "ok": false, "off_size": 0, "total_read": 0, "count_same": false, "glyph_replaced": false, "others_unchanged": false, "ascending": false, "prefix_unchanged": false, "tables_unchanged": false, "applied_marked": false}));
+                ev.push(json!({"op": "cff", "flavour": name, "total": total, "ok": false, "off_size": 0, "total_read": 0, "count_same": false, "glyph_replaced": false, "others_unchanged": false, "ascending": false, "prefix_unchanged": false, "tables_unchanged": false, "applied_marked": false}));
             }
             Ok(Ok((out, marked))) => {
                 let Ok(nf) = FontRef::new(&out) else { return rep.violation("patched font does not open", case) };
-                let Some(new) = charstrings(&nf) else { return rep.violation("patched CFF charstrings INDEX does not read", case) };
+                let Some(new) = charstrings(&nf, fl) else { return rep.violation("patched CFF charstrings INDEX does not read", case) };
                 let ncount = new.count() as usize;
                 let count_same = ncount == count;
                 let mut ascending = true;
@@ -104,10 +122,10 @@ pub fn replay(path: &str, ev: &mut Vec<Value>, rep: &mut Report) {
                         }
                     }
                 }
-                let off = CFF_FONT_CHARSTRINGS_OFFSET as usize;
+                let off = fl.cs_offset as usize;
                 let prefix = nf.table_data(CFF).map(|d| d.as_bytes()[..off].to_vec()) == font.table_data(CFF).map(|d| d.as_bytes()[..off].to_vec());
                 let tables = font.table_directory.table_records().iter().all(|r| r.tag() == CFF || r.tag() == Tag::new(b"IFT ") || r.tag() == Tag::new(b"head") || nf.table_data(r.tag()).map(|d| d.as_bytes().to_vec()) == font.table_data(r.tag()).map(|d| d.as_bytes().to_vec()));
-                let e = json!({"op": "cff", "total": total, "ok": true, "off_size": new.off_size(), "total_read": new.get_offset(ncount).unwrap_or(0), "count_same": count_same,
+                let e = json!({"op": "cff", "flavour": name, "total": total, "ok": true, "off_size": new.off_size(), "total_read": new.get_offset(ncount).unwrap_or(0), "count_same": count_same,
                     "glyph_replaced": replaced, "others_unchanged": others, "ascending": ascending, "prefix_unchanged": prefix, "tables_unchanged": tables, "applied_marked": marked});
                 if !(count_same && replaced && others && ascending && prefix && tables && marked) {
                     rep.violation(&format!("CFF glyph keyed patch (total {total}): {e}"), case);
